@@ -567,10 +567,10 @@ def gen_script(rk, spec, kind, p=None):
             "seed": seed, "isp": isp, "ongrid": ongrid, "steps": steps}
 
 
-def render_script(ru, sp, us, rich=True):
+def render_script(ru, sp, us, rich=True, explicit_p=0.25):
     """script kwargs (JSON) for RDScript, numbers expressed in the script's units system `us`"""
     def tval(v):
-        if rich and ru.chance(0.25):
+        if rich and ru.chance(explicit_p):
             u2 = draw_us(ru)
             return "%r %s" % (si.to_units(v, u2, si.DIM_TIME), u2["time"])
         return float(si.to_units(v, us, si.DIM_TIME))
